@@ -551,6 +551,27 @@ def r0_options(ctx):
             r.viol("R0:get_locales", "with configured locales [en, fr-CA, zh] get_locales yields %s" % absint.fmt(got), file=BL, line=gl.line)
         else:
             r.inst("get_locales", "the stored list of configured locales, unfiltered, in order")
+    # ... and the language identifiers handed to the data generator are those names parsed, subtag for subtag (a variant such as
+    # `ca-valencia` is a locale of its own for a provider without fallback)
+    gli = funcs.get("TranslationsInfos::get_locales_langids")
+    if gli is not None:
+        def parse_langid(rv, a):
+            parts = rv[1].split("-") if rv[0] == "str" else None
+            if not parts:
+                raise absint.Unknown("parse of a non string")
+            return C("Ok", CF("LanguageIdentifier", language=S(parts[0]), script=C("None"), region=(C("Some", S(parts[1])) if len(parts) > 1 and len(parts[1]) == 2 else C("None")),
+                              variants=L(*[S(x) for x in parts[1:] if len(x) > 4])))
+        names2 = L(S("en"), S("fr-CA"), S("ca-valencia"), S("zh"))
+        ev_l = AEval(funcs=funcs, builtins={"parse": parse_langid})
+        got = ev_l.run_fn(gli, [CF("TranslationsInfos", locales=A("keys"), locales_names=names2, paths=L())])
+        if isinstance(got, str):
+            return r, False, got
+        want_l = L(*[parse_langid(x, [])[2][0] for x in names2[1]])
+        if got != want_l:
+            r.viol("R0:get_locales_langids", "with configured locales [en, fr-CA, ca-valencia, zh] the language identifiers handed to the data generator are %s; expected each name parsed as it is: %s"
+                   % (absint.fmt(got)[:300], absint.fmt(want_l)[:300]), file=BL, line=gli.line)
+        else:
+            r.inst("get_locales_langids", "every configured locale, parsed as written (region and variant subtags kept), in order")
     pi = funcs.get("TranslationsInfos::parse_inner")
     if pi is not None:
         K = lambda n_: CF("Key", name=S(n_))  # noqa: E731
@@ -596,10 +617,18 @@ def shared(ctx):
     r6 = skip_icu_gates(ctx, "C20.R6", "the helper's parse accepts every formatter and plural regardless of the parser's own feature set",
                         "`the helper derives the options from the translations`: it parses with SKIP_ICU_CFG, which must stand in for each formatter / plural "
                         "feature wherever the parser tests one; a gate that ignores the flag makes the helper fail (or skip) exactly the translations whose data it should request")
-    r7 = borrow(c08.r2_union(ctx, ctx.mir("main")), "C20.R7", "every formatter a variable is used with is recorded on it",
+    k2 = c08.r2_union(ctx, ctx.mir("main"))
+    r8 = borrow(k2, "C20.R8", "a key's information is the union over every locale: each locale's value is collected in full (counts included) into the key's own set",
+                "`plural data if and only if some key - in any locale - is a plural`: the plural count of a key is recorded by the same collection walk as its variables; a merge that copies "
+                "only part of what a non-default locale's value holds (variables and components but not the count) hides a plural written in that locale only", only=r"ParsedValue::merge", floor=1)
+    from rules import c05
+    r9 = borrow(c05.r2_candidates(ctx), "C20.R9", "plural forms are merged into a plural at every sub-key depth",
+                "`at any subkey depth`: the helper detects a plural by the merged `Plurals` value; forms inside a sub-key group that are left as ordinary keys (the merge not "
+                "recursing into groups) make the helper omit plural data", only=r"merge_plurals", floor=1)
+    r7 = borrow(k2, "C20.R7", "every formatter a variable is used with is recorded on it",
                 "`each formatter family's data iff that formatter is used`: the helper reads the formatters off the variables of the key information; a signature that keeps "
                 "one formatter per `kind of input` (number and currency both take numbers) loses the currency family when the same variable is also a plain number", only=r"push_var", floor=1)
-    return [r5, r6, r7]
+    return [r5, r6, r7, r8, r9]
 
 
 def run(ctx):
